@@ -227,7 +227,7 @@ class Driver:
             return None
         data = "\n".join(json.dumps(x, separators=(",", ":"), ensure_ascii=True) for x in lines) + "\n"
         r = subprocess.run([DRIVER], input=data, capture_output=True, text=True, timeout=timeout)
-        outs = [json.loads(l) for l in r.stdout.splitlines() if l.strip()]
+        outs = [json.loads(l) for l in r.stdout.split("\n") if l.strip()]   # (not splitlines: U+0085, U+2028 inside strings are not line ends)
         if len(outs) != len(lines):
             raise RuntimeError(f"driver answered {len(outs)} lines for {len(lines)} (rc={r.returncode}): {r.stderr[-500:]}")
         return outs
